@@ -22,6 +22,7 @@ type variant struct {
 	splitMsg     bool // singular message field split over two occurrences (merge)
 	splitEmpty   bool // with splitMsg: cut at the very start or the very end, so that one of the occurrences is empty
 	oneofMulti   bool // another member of the oneof before the real one (last wins)
+	oneofABA     bool // with oneofMulti, message members: an earlier occurrence of the SAME member, then another member, then the real one
 	mapShape     int  // 0 normal, 1 value-then-key, 2 omit zero key, 3 omit zero value, 4 duplicate key (first with other value)
 	explicitZero bool // implicit-presence fields holding zero are written explicitly
 	unknown      bool // unknown fields interleaved at every level
@@ -39,6 +40,7 @@ var variantFamilies = []variant{
 	{family: "splitmsg-empty", splitMsg: true, splitEmpty: true},
 	{family: "splitmsg+unknown", splitMsg: true, unknown: true},
 	{family: "oneofmulti", oneofMulti: true},
+	{family: "oneof-aba", oneofMulti: true, oneofABA: true},
 	{family: "mapswap", mapShape: 1},
 	{family: "mapomitkey", mapShape: 2},
 	{family: "mapomitval", mapShape: 3},
@@ -313,7 +315,16 @@ func (e *venc) message(m protoreflect.Message, depth int) []byte {
 			}
 			if od := fd.ContainingOneof(); od != nil && !od.IsSynthetic() && e.v.oneofMulti {
 				if c := e.oneofLoser(m, fd, depth); c != nil {
-					chunks = append(chunks, append(c, refwire.AppendLen(refwire.AppendKey(nil, int(fd.Number()), refwire.WTLen), full)...))
+					real := refwire.AppendLen(refwire.AppendKey(nil, int(fd.Number()), refwire.WTLen), full)
+					if e.v.oneofABA {
+						// A' B A: the earlier A' (which carries a field the real value does not have) is wiped out by B, the
+						// final value is A alone - nothing of A' may be merged into it
+						extra := refwire.AppendVarint(refwire.AppendKey(nil, 536870001, refwire.WTVarint), 77)
+						first := refwire.AppendLen(refwire.AppendKey(nil, int(fd.Number()), refwire.WTLen), append(append([]byte(nil), full...), extra...))
+						chunks = append(chunks, append(append(first, c...), real...))
+					} else {
+						chunks = append(chunks, append(c, real...))
+					}
 					e.applied++
 					continue
 				}
